@@ -235,6 +235,11 @@ def fam_undeclared():
         'print("a"); als ja { stel v = 1; } anders { stel w = 2; }; {USE}',
         'print("a"); functie outer() { stel secret = 1; functie inner() { {USE} }; inner() }; outer()',
         'print("a"); functie caller() { stel mine = 1; callee() }; functie callee() { {USE} }; 1',
+        # code after an unconditional exit is still part of the program: its names must resolve too
+        'print("a"); functie f(p) { antwoord p; {USE} }; f(1)',
+        'print("a"); stel i = 0; zolang i < 1 { i += 1; stop; {USE} }; i',
+        'print("a"); stel i = 0; zolang i < 1 { i += 1; volgende; {USE} }; i',
+        'print("a"); functie f(p) { als p > 0 { antwoord 1; {USE} }; 2 }; f(1)',
     ]
     uses = ["b", "b + 1", "l", "m", "z", "v", "w", "secret", "mine", "nope", "nope = 1", "nope[0]", "nope()", "a = nope", "[1, nope]", "p"]
     out = []
@@ -626,6 +631,23 @@ SESSION_LINES = [
     ("array", "stel v = [a, 2.5, \"t\"]; v"),
     ("usearray", "v[0] = 9; v"),
     ("callfn", "f(4)"),
+    ("heapstore", "v[0] = 2.5 + 1.0; 0"),
+    ("callalloc", "functie w() { 1 }; w(); stel z = [7.25 + 1.0, \"fill\"]; z"),
+]
+
+# directed longer sessions (name, lines): multi-step sequences that 3-line enumeration cannot reach
+DIRECTED_SESSIONS = [
+    ("result-then-store-then-collect", ["stel v = [1.5, \"t\"]", "v", "v[0] = 2.5 + 1.0; 0", "functie w() { 1 }; w(); stel z = [7.25 + 1.0, \"fill\"]; z", "v"]),
+    ("string-result-then-modify", ['stel s = "xy"', "s", 's[0] = "q"; 0', "functie w() { 1 }; w(); stel z = \"zz\"; z", "s"]),
+    ("nested-result-then-store", ["stel v = [[1.5], 0]", "v", "v[1] = [2.5 + 1.0]; 0", "functie w() { stel t = [9.5] }; w(); stel z = [7.25 + 1.0]; 0", "stel in = v[1]; in[0]"]),
+    ("error-with-live-heap-then-read", ["stel a = [1.5, \"k\"]; stel f = 0.5 + 1.0", "a[5]", "stel z = [7.25 + 1.0, \"fill\"]; 0", "functie w() { 1 }; w()", "[a, f]"]),
+    ("error-in-fn-with-live-heap", ["stel a = [1.5, \"k\"]", "functie h() { stel t = [2.5]; t[3] }; h()", "functie w() { 1 }; w(); stel z = [7.25 + 1.0]; 0", "a"]),
+    ("compile-error-in-block-then-shadow", ["stel a = %s" % H0, "als a == a { stel a = 2; nope }", "a", "stel b = 10; nope", "a + 1"]),
+    ("compile-error-in-loop-then-loop", ["stel a = 0", "zolang a < 3 { a += 1; nope }", "zolang a < 3 { a += 1; }; a", "stop"]),
+    ("globals-many-lines", ["stel a = %s" % H0, "stel b = a + 1", "a = b * 2; a", "stel c = [a, b]", "c[%s]" % H2, "a + b"]),
+    ("redeclare-across-lines", ["stel a = 1", "stel a = %s + 1" % H1, "a", "{ stel a = 5; a }", "a"]),
+    ("redeclare-fails-at-run-time", ["stel a = 1", "stel a = [1][%s]" % H2, "a"]),
+    ("heap-constant-reuse", ['stel s = "abc"', 'stel t = "abc"; t[0] = "x"; t', "s", '"abc"', "1.5", "1.5 + 1.5"]),
 ]
 
 
@@ -640,10 +662,41 @@ def fam_sessions(max_len=3, names=None):
     return out
 
 
+def fam_sessions_directed():
+    return [("sess-directed:" + n, l) for n, l in DIRECTED_SESSIONS]
+
+
 def fam_sessions_random(seed, n, length):
     out = []
     for i in range(n):
         rng = random.Random((seed + 7) * 7919 + i)
         seq = [rng.choice(SESSION_LINES) for _ in range(length)]
         out.append(("sess-rnd:%d:%s" % (seed, ">".join(x[0] for x in seq)), [x[1] for x in seq]))
+    return out
+
+
+# ------------------------------------------------------------------ C03 / C04: allocation across collection points
+def fam_gc():
+    """heap values (floats, strings, lists; nested, aliased, cyclic) kept alive / dropped across function returns
+    (a collection runs at every return); the last expression reads everything that must still be alive"""
+    pre = "functie id(x) { x }; functie noop() { stel t = 0 }; functie mk(n) { [n, 0.5 + 1.0, \"s\"] }; "
+    out = [
+        ("gc:fresh-float-into-survivor", pre + "stel a = [0.5]; id(1); a[0] = 1.5 + 1.0; print(a); id(2); stel b = 3.0 + 4.0; [a[0], b]"),
+        ("gc:fresh-string-into-survivor", pre + 'stel a = ["x"]; id(1); stel s = "ab"; s[0] = "q"; a[0] = s; s = 0; noop(); stel t = "zz"; t[1] = "y"; [a[0], t]'),
+        ("gc:nested-into-survivor", pre + "stel a = [[1.5], 0]; id(1); a[1] = [2.5 + %s, [3.5]]; noop(); stel fill = [4.5, 5.5, 6.5]; stel in = a[1]; stel deep = in[1]; [a[0], in[0], deep[0], fill]" % H0),
+        ("gc:result-of-call-is-heap", pre + "stel a = mk(%s); stel b = mk(2); noop(); stel c = mk(3); [a, b, c]" % H0),
+        ("gc:pending-operands", pre + "stel r = [1.5 + 1.0, id(2.5 + 1.0), mk(1), id(\"k\")]; noop(); r"),
+        ("gc:args-are-heap", pre + "functie pair(x, y) { noop(); [x, y] }; stel p = pair(1.5 + 1.0, [2.5]); noop(); stel q = pair(\"a\", 3.5); [p, q]"),
+        ("gc:alias-two-lists", pre + "stel f = 1.5 + %s; stel a = [0, 0]; stel b = [0]; a[1] = [f]; b[0] = a[1]; a = 0; noop(); stel junk = [9.5, 8.5]; stel x = b[0]; [x[0], junk]" % H0),
+        ("gc:cycle", pre + "stel a = [1.5, 0]; a[1] = a; noop(); stel b = a[1]; stel junk = [7.5]; [b[0], junk[0], lengte(b)]"),
+        ("gc:drop-then-reuse", pre + "stel a = [1.5, 2.5]; a = 0; noop(); stel b = [3.5, 4.5]; noop(); stel c = [5.5]; [b, c]"),
+        ("gc:global-survives-many-calls", pre + "stel g = [0.25, \"keep\"]; stel i = 0; zolang i < %s { stel tmp = mk(i); noop(); i += 1; }; stel after = [0.75]; [g, after]" % H0),
+        ("gc:last-value-is-heap", pre + "1.5 + 1.0; noop(); stel z = 3.0 + 4.0; 2.5 + 0.0"),
+        ("gc:value-returned-through-frames", pre + "functie deep(n) { als n == 0 { antwoord [1.5, \"x\"]; }; stel local = [n]; deep(n - 1) }; stel r = deep(%s); noop(); stel junk = [2.5, \"y\"]; [r, junk]" % H0),
+        ("gc:string-index-result", pre + 'stel s = "héllo"; stel c = s[1]; noop(); stel d = s[4]; noop(); [c, d, s]'),
+        ("gc:float-arith-chain", pre + "stel x = 1.5; stel i = 0; zolang i < 3 { x = x * 2.0 + id(0.5); i += 1; }; noop(); [x, 1.5]"),
+        ("gc:error-with-live-heap", pre + "stel a = [1.5, \"x\", [2.5]]; noop(); print(a); a[%s]" % H0),
+        ("gc:error-inside-call-with-live-heap", pre + "functie bad(v) { stel t = [v, 3.5]; t[5] }; stel a = [1.5]; print(a); bad(a)"),
+        ("gc:builtin-results", pre + 'stel t = [string(12), type(1.5), float(3), string(2.5)]; noop(); stel u = [string(7)]; [t, u]'),
+    ]
     return out
